@@ -18,3 +18,15 @@ func VerifAppendUint(bits uint8, w uint64) []byte {
 	code := &Opcode{NumBitSize: bits}
 	return AppendUint(nil, nil, uintptr(unsafe.Pointer(&w)), code)
 }
+
+// VerifAppendString runs AppendString under the given escape flags.
+func VerifAppendString(html, norm bool, s string) []byte {
+	ctx := &RuntimeContext{Option: &Option{}}
+	if html {
+		ctx.Option.Flag |= HTMLEscapeOption
+	}
+	if norm {
+		ctx.Option.Flag |= NormalizeUTF8Option
+	}
+	return AppendString(ctx, nil, s)
+}
